@@ -148,6 +148,8 @@ impl Client<16> for Prio2 {
         _nonce: &[u8; 16],
     ) -> Result<(Self::PublicShare, Vec<Share<FieldPrio2, 32>>), VdafError> {
         let mut rng = rng();
+        #[cfg(prio_verif)]
+        let mut rng = crate::verif_hooks::SimRng::wrap(rng);
         if measurement.len() != self.input_len {
             return Err(VdafError::Uncategorized("incorrect input length".into()));
         }
